@@ -1,13 +1,15 @@
 (* C06 - Initial population = declared distribution pushed through splits and rebalances.
-   Statements only; proofs in Proofs/InitProofs.v and Proofs/SolversProofs.v.
-   PARTIAL: the theorems below are about the specification sv_spec (in-place replacement, value x
-   split); that the index-array scatter of runner/jax/stratify.py (Model/InitPop.v stratify_values)
-   and the rebalance of population.py compute this specification is established by the
-   correspondence check and the oracle only, not by a theorem (DESIGN.md 6.6). *)
+   Statements only; proofs in Proofs/InitProofs.v, Proofs/InitBridge.v and Proofs/SolversProofs.v.
+   The index-array scatter of runner/jax/stratify.py (Model/InitPop.v stratify_values) is proved to
+   compute the specification sv_spec (in-place replacement, value x split) for every compartment
+   list, and get_calculate_initial_pop to be the replay of the recorded actions on (compartment,
+   value) pairs.  PARTIAL: what a population-split adjustment (population.py rebalance) does to the
+   values is executed and compared with the code and the oracle, not characterised by a theorem; the
+   theorems named _partial are the ones about the specification of a single step (DESIGN.md 6.6). *)
 From Coq Require Import QArith Qcanon List String Bool.
 Import ListNotations.
 From S2 Require Import Base.Num Base.Arr Model.Expr Model.Struct Model.InitPop Model.Solvers Model.Run Model.Program
-     Proofs.NumQc Proofs.InitProofs Proofs.SolversProofs Props.Examples.
+     Proofs.NumQc Proofs.InitProofs Proofs.InitBridge Proofs.SolversProofs Props.Examples.
 
 (* a stratified compartment is replaced by its strata, each holding the parent's value times the
    split of its stratum; unstratified compartments keep their value (to any depth: the product of
@@ -41,6 +43,33 @@ Theorem C06_grand_total_partial :
 Proof. exact sv_spec_grand_total. Qed.
 Print Assumptions C06_grand_total_partial.
 
+(* the scatter through the index arrays computes exactly that specification: for every stratification
+   (full or partial, any number of strata), compartment list and value vector *)
+Theorem C06_scatter_is_spec :
+  forall (O : NumOps) (p : env O) s (cs : list comp) (vals : list (F O)), List.length vals = List.length cs ->
+    stratify_values O p s cs vals = map snd (sv_spec O p s (combine cs vals)).
+Proof. exact stratify_values_spec. Qed.
+Print Assumptions C06_scatter_is_spec.
+
+(* the initial population is the declared distribution (0 for undeclared compartments) replayed through
+   the recorded stratifications and adjustments, values and compartments staying aligned *)
+Theorem C06_replay :
+  forall (O : NumOps) (p : env O) (m : model),
+    m_arraypop m = None ->
+    initial_population O m p = map snd (fold_left (ip_step O p m) (m_actions m) (initial_pairs O p m)).
+Proof. exact initial_population_replay. Qed.
+Print Assumptions C06_replay.
+
+(* without population-split adjustments the total population is the total of the declared distribution
+   whenever every split sums to one (whatever the splits are given as) *)
+Theorem C06_total :
+  forall (O : NumOps) (T : NumTheory O) (p : env O) (m : model),
+    m_arraypop m = None -> no_rebalance m ->
+    Forall (splits_sum_to_one O p) (only_stratifications m) ->
+    fsum O (initial_population O m p) = fsum O (map snd (initial_pairs O p m)).
+Proof. exact initial_population_total. Qed.
+Print Assumptions C06_total.
+
 (* a whole-population array supplied as a graph object is used verbatim *)
 Theorem C06_array_verbatim :
   forall (O : NumOps) (m : model) (p : env O) arr,
@@ -57,5 +86,12 @@ Print Assumptions C06_row0.
 
 (* non-vacuity: the example model: S = 900 split 5/8, 3/8; I = 100 *)
 Example C06_nonvacuous :
-  map this (initial_population QcOps ex_m ex_env) = [(1125#2); (675#2); (125#2); (75#2); 0; 0]%Q.
-Proof. vm_compute. reflexivity. Qed.
+  map this (initial_population QcOps ex_m ex_env) = [(1125#2); (675#2); (125#2); (75#2); 0; 0]%Q
+  /\ m_arraypop ex_m = None /\ no_rebalance ex_m
+  /\ only_stratifications ex_m = [ex_age] /\ splits_sum_to_one QcOps ex_env ex_age.
+Proof.
+  split; [vm_compute; reflexivity|]. split; [reflexivity|]. split; [|split].
+  - unfold no_rebalance. change (m_actions ex_m) with [AStratify ex_age]. repeat constructor.
+  - reflexivity.
+  - unfold splits_sum_to_one. apply Qc_is_canon. vm_compute. reflexivity.
+Qed.
